@@ -64,8 +64,10 @@ pub fn run_case(ctx: &mut Ctx, fam: &str, k: u64, r: &mut Rng) {
     if !maxmag.is_finite() {
         return;
     }
-    let s1: Vec<f64> = (0..n).map(|_| r.int(-3, 3)).collect();
-    let s2: Vec<f64> = (0..n).map(|_| r.int(-3, 3)).collect();
+    // seeds of very different magnitudes (a delta-dependent shortcut or clip would break linearity)
+    let (m1, m2) = (*r.pick(&[1.0, 1.0, 1000.0, 1.0e6]), *r.pick(&[1.0, 1.0, 1000.0]));
+    let s1: Vec<f64> = (0..n).map(|_| r.int(-3, 3) * m1).collect();
+    let s2: Vec<f64> = (0..n).map(|_| r.int(-3, 3) * m2).collect();
     let (a, b) = (r.int(-3, 3), r.int(-3, 3));
     let s3: Vec<f64> = s1.iter().zip(&s2).map(|(x, y)| a * x + b * y).collect();
     let ones = vec![1.0; n];
@@ -124,7 +126,7 @@ pub fn run_case(ctx: &mut Ctx, fam: &str, k: u64, r: &mut Rng) {
         let scale: Vec<f64> = if exact {
             vec![0.0; v3.len()]
         } else {
-            match expected_gradient(&p, *l, &sabs, root) {
+            match expected_gradient_scaled(&p, *l, &sabs, root, true) {
                 Some((_, s)) => s,
                 None => vec![maxmag; v3.len()],
             }
